@@ -260,11 +260,17 @@ class ScriptedImpl:
         if act == "nothing":
             return
         if act in ("emit", "emit_finish"):
-            if input is not None and m["kind"] == "exchange":
+            if input is not None and m["kind"] == "exchange" and m.get("alias"):
+                # pass the input's own columns through (zero-copy, possibly reordered): the emitted batch
+                # references the input's buffers until it has been written
+                batch = pa.RecordBatch.from_arrays([input.batch.column(c) for c in m["out_cols"]], schema=out.output_schema)
+                data = None
+            elif input is not None and m["kind"] == "exchange":
                 data = _transform(input.batch, m["out_cols"], pos)
             else:
                 data = make_rows(state.mname, pos, st.get("rows", 1), m["out_cols"], st.get("pad", 0))
-            batch = pa.RecordBatch.from_pydict(data, schema=out.output_schema)
+            if data is not None:
+                batch = pa.RecordBatch.from_pydict(data, schema=out.output_schema)
             out.emit(batch, metadata=st.get("meta"))
             # optional: logs emitted after the data batch of the step, and a failure after that
             self._emit_logs(st.get("post_logs", []), out.client_log)
